@@ -13,27 +13,36 @@ Oracle, for every model row of the selected-output string (-high_precision, 13 d
       Input + Delta rows balance element by element (and alkalinity, with the phase alkalinity computed from the text) at print precision;
       MaxFracErr (13 digits) <= largest allowed relative adjustment
   (c) mixing fractions >= 0, final fraction 1, dissolve-only x >= 0, precipitate-only x <= 0
-  (d) -range: robust form, see F3 below
+  (d) -range: min <= value <= max, asserted in the robust form forced by F3 (below)
   (e) -minimal: no reported model's set of phases and solutions strictly contains another one's
 Slack: 1e-9 relative + 10..20 * tolerance per constraint row (cl1 accepts residuals up to 10 * tol by construction) + print precision.
 
-KNOWN FINDINGS of the pinned tree (all in the L1 solver cl1 and its callers; registered replays under replays/C18/known, strict there):
-  F1  inverse.cpp minimal_solve(): the return value of the last solve_with_mask() is ignored - a model is printed from a failed LP
-  F2  inverse.cpp range(): "Error in subroutine range. Kode = 1" is printed and the failed LP's numbers are reported as minimum / maximum
-  F3  cl1() returns kode 0 at a vertex that is not optimal (HiGHS on the identical LP finds the optimum): ranges too narrow, may miss
-      the model's own value, may be inverted; no notice
-  F4  cl1.cpp: the final verification of the sign restrictions compares with x_arg / res_arg, which cl1_space() zero-fills and nothing
-      ever sets - dead code; solutions with a dissolve-only phase precipitating are accepted (kode 0)
-  F5  cl1() accepts solutions whose equality rows are violated by ~1e-7 (residuals are taken from the tableau, not recomputed)
-How the generated search stays quiet (every exclusion is counted in the evidence):
-  * models of a run in which the engine itself printed a solver-failure notice are not verified (F1, F2; `excluded:*` events);
-  * phase lists are linearly independent by construction, -tolerance is the default or larger, waters are not proportional
-    (degenerate LPs are where F3-F5 occur silently);
-  * a violation is reported only if it is reproduced by two reformulations of the same problem (reversed phase order; all amounts
-    scaled by 1.7 + rotated phase order) and by two neighbouring problems (relative uncertainties 1.3 % wider / narrower): sporadic
-    solver failures and razor-edge infeasible "optima" do not survive that, a wrong set-up does (`not_reproduced_*` events);
-  * (d) is asserted per model as "at least 3 and at least 90 % of the reported proper intervals are inverted or miss their value";
-    single intervals are counted (`known_F3:*`); (c) tolerates a wrong-signed transfer below 0.1 % of the largest transfer (`known_F4:*`).
+FINDINGS in the L1 solver cl1 and its callers (strict replays: replays/C18/fixed-*.json pass since the fixes, replays/C18/known fail):
+  F1  FIXED (2118ab56)  minimal_solve() ignored the result of its last solve_with_mask(): a model was printed from a failed LP
+  F4  FIXED (2da01197)  cl1's final verification of the sign restrictions compared with zero-filled x_arg / res_arg (dead code)
+  F2  known  range(): "Error in subroutine range. Kode = 1" is printed and the failed LP's numbers are reported as minimum / maximum
+  F3  known  cl1() returns kode 0 at a vertex that is not optimal (an exact solver on the identical LP finds the optimum): a reported
+             range can be too narrow, miss the model's own value, or be inverted; no notice
+  F5  known  cl1() accepts points that violate its own equality / bound rows (residuals are read from the tableau, pivots as small as
+             the tolerance): reported adjustments that do not balance, typically on the razor edge of feasibility; the water row
+             (55 mol/kg) shows residuals up to ~5e-6 relative
+  F6  new    solve_inverse() / minimal_solve() take an LP that cl1 REJECTED for round-off ("CL1: Roundoff errors in optimization", more
+             frequent since the F4 fix) for an infeasible one and save_bad() it; subset_bad() then declares every subset infeasible:
+             a model is declared minimal although a reported model is a proper subset of it
+What is still excluded, per model and per clause, each counted in the evidence:
+  * F2: clause (d) is skipped for a model whose block is preceded by "Error in subroutine range" (`excluded:range_of_model_*`);
+  * F3: single intervals are counted (`known_F3:*`); (d) is asserted per model as "at least 3 and ALL proper intervals are inverted or miss
+    their value";
+  * F5: violations of the balance / adjustment clauses (element_balance, printed_balance, delta_limit, max_frac_err, water_balance) and
+    range_majority are reported only if reproduced by two reformulations of the same problem (reversed phase order; all amounts x 1.7 +
+    rotated order) and two neighbouring problems (relative uncertainties 1.3 % wider / narrower) (`not_reproduced_*`); a water-row residual
+    below 2e-5 relative is counted (`known_F5:*`);
+  * F6: a model printed after a round-off notice of a non-range LP (anywhere earlier in the run: the rejected mask stays in the list of
+    "infeasible" sets and poisons its subsets) is not used as the CONTAINING model of clause (e) (`known_F6:*`);
+  * the sign clauses (c), fraction_final and (e) otherwise are immediate (no reproduction filter); sign slack = 10 * tolerance, what the
+    solver's own (now live) verification accepts;
+  * generator domain: linearly independent phase lists, -tolerance default or (with limits >= 1 %) 1e-9 / 1e-8, no global uncertainty of
+    exactly 0, waters not proportional (degenerate / razor-edge LPs are where F3, F5 strike).
 """
 import os, re, math
 from hypothesis import strategies as st
@@ -49,20 +58,20 @@ RULE = ("Hypothesis-generated forward simulations (1-3 initial waters, mixing fr
         "zero uncertainties, -balances incl. pH and Alkalinity, -range, -minimal, -tolerance, -mineral_water, -uncertainty_water, force; "
         "analyses perturbed inside / outside their uncertainty. Every reported model is re-verified from the selected-output string "
         "(13 digits), the printed Input/Delta tables, totals read back as full doubles and stoichiometry parsed from the database / input "
-        "text. Non-trivial = a run with at least one VERIFIED model (not excluded for a solver-failure notice) that has >= 2 non-zero "
-        "phase transfers; distinct by SHA-256 of the case")
+        "text. Non-trivial = a run that reports at least one model with >= 2 non-zero phase transfers (every reported model is verified); "
+        "distinct by SHA-256 of the case")
 ASSUMPTIONS = ["TOTMOLE / ALK / TOT(\"water\") of USER_PUNCH report the totals the solution objects hand to the inverse code (independent read-out path)",
                "solver tolerance (-tolerance, default 1e-10; cl1 accepts constraint residuals up to 10*tol) is part of the documented model: "
                "absolute slack of 10..20*tol per constraint row; transfers <= 1e-9 count as zero (engine's comparison tolerance)",
                "values beyond +-(range maximum) are outside the documented domain of -range",
                "per-row uncertainty = -balances entry of that valence state, else of its element, else -uncertainty of the solution (manual)",
                "phase stoichiometry / alkalinity / water = formula and reaction as written in the database or input text (balanced equations)",
-               "known findings F1-F5 (LP solver): notice-based exclusions, reproduction under two reformulations, robust form of the range "
-               "clause - see module docstring; each is counted in the evidence"]
+               "known findings F2, F3, F5, F6 (LP solver; F1, F4 fixed): per-model / per-clause exclusions, reproduction filter for the "
+               "F5-affected clauses, robust form of the range clause - see module docstring; each is counted in the evidence"]
 TECHNIQUE = "property-based testing (Hypothesis): forward-simulated inverse problems, every reported model re-verified by an independent mole-balance oracle"
 LEVEL_TEXT = ("Exploration: thousands of generated inverse problems per run; each reported model is recomputed element by element from "
-              "independent totals and database-text stoichiometry. Completeness of the model search is not asserted; five solver defects "
-              "of the pinned tree are excluded by detection and counted.")
+              "independent totals and database-text stoichiometry. Completeness of the model search is not asserted; four remaining solver "
+              "defects (F2, F3, F5, F6) are excluded by detection, per model and clause, and counted.")
 FLOORS = {"quick": 150, "thorough": 1500}
 SHARDS = {"quick": 8, "thorough": 16}
 BUDGET = {"quick": 250, "thorough": 700, "replay": 1}
@@ -123,13 +132,16 @@ def parse_models_out(out):
     #   "WARNING: Roundoff errors in minimal calculation"
     gap = {"cl1": 0, "range": 0, "minwarn": 0}
     fresh_notice = False
+    seen_notice = False          # a round-off rejection of a non-range LP anywhere earlier in the run (it enters the "bad" list, F6)
     for l in lines:
         s = l.strip()
         m = re.match(r"^Solution\s+(\d+):", s)
         if m and not s.startswith("Solution fractions"):
             if cur is None:
+                seen_notice = seen_notice or gap["cl1"] > 0 or gap["minwarn"] > 0
                 cur = {"sol": {}, "fractions": {}, "redox": {}, "sums": [None, None, None], "order": [],
-                       "lp_notice": gap["cl1"] > 0 or gap["minwarn"] > 0, "range_error": gap["range"] > 0}
+                       "lp_notice": gap["cl1"] > 0 or gap["minwarn"] > 0, "lp_notice_before": seen_notice,
+                       "range_error": gap["range"] > 0}
                 gap = {"cl1": 0, "range": 0, "minwarn": 0}
             qn = int(m.group(1))
             cur["sol"][qn] = {}
@@ -460,7 +472,7 @@ def verify(case, comps, numbers, heads, rows, printed, summary, toler, chem, ctx
                     ctx.event("known_F3:interval_inverted" if inverted else "known_F3:value_outside_reported_range")
             if n_bad:
                 ctx.event("range_bad_intervals=%dof%d" % (n_bad, n_nd))
-            if n_bad >= 3 and n_bad >= 0.9 * n_nd:
+            if n_bad >= 3 and n_bad >= n_nd:
                 fail("range_majority", "%s: %d of the %d reported proper intervals are inverted or miss the reported value, e.g. %s" % (
                     tag, n_bad, n_nd, first_bad))
         # ---- (a) necessary feasibility of every element balance (13-digit values, independent totals and stoichiometry)
@@ -497,7 +509,10 @@ def verify(case, comps, numbers, heads, rows, printed, summary, toler, chem, ctx
         resid = math.fsum(wt)
         slack = 1e-9 * math.fsum(abs(t) for t in wt) + 2 * tol10 + abs(inv["u_water"] or 0.0) * (1 + 1e-9)
         no_redox = printed is not None and not printed[mi]["redox"]      # redox transfers carry water of their own, not reported
-        if no_redox and abs(resid) > slack:
+        if no_redox and abs(resid) > slack and not strict and abs(resid) <= slack + 2e-5 * math.fsum(abs(t) for t in wt):
+            # known finding F5: the water row (55 mol per kg) is where the solver's unverified equality residuals are largest
+            ctx.event("known_F5:water_row_residual_below_2e-5_relative")
+        elif no_redox and abs(resid) > slack:
             fail("water_balance", "%s: water balance (mol): terms %r: residual %.6e exceeds uncertainty_water + slack = %.3e" % (
                 tag, wt, resid, slack))
         # ---- MaxFracErr (13 digits): the largest relative adjustment of a printed row cannot exceed the largest allowed one
@@ -593,7 +608,7 @@ def verify(case, comps, numbers, heads, rows, printed, summary, toler, chem, ctx
         # "certainly non-zero": above the engine's zero test (1e-9) and above what the solver tolerance lets slip (10*tol per row)
         zthr = max(2.1e-9, 2.1 * tol10)
         lo_set = frozenset([("s", j) for j in range(nq - 1) if abs(alpha[j]) > zthr] + [("p", j) for j in range(nph) if abs(x[j]) > zthr])
-        supports.append((hi_set, lo_set, tag))
+        supports.append((hi_set, lo_set, tag, bool(pmx["lp_notice_before"]) if pmx is not None else bool(summary.get("cl1_notice") or summary.get("minwarn"))))
     # ---- (e) -minimal: no reported model strictly contains another one
     if inv["minimal"]:
         for a in range(len(supports)):
@@ -601,6 +616,12 @@ def verify(case, comps, numbers, heads, rows, printed, summary, toler, chem, ctx
                 if a == b:
                     continue
                 if supports[b][0] <= supports[a][1] and len(supports[a][1] - supports[b][0]) > 0:
+                    if supports[a][3] and not bool(case.get("no_exclusions")):
+                        # known finding F6: an LP was rejected for round-off ("CL1: Roundoff errors in optimization" printed earlier in
+                        # the run); solve_inverse / minimal_solve take that for "infeasible", keep the mask in their list of infeasible
+                        # sets and treat every subset of it as infeasible too
+                        ctx.event("known_F6:not_minimal_after_lp_roundoff_notice")
+                        continue
                     fail("minimal", "with -minimal, %s strictly contains %s" % (supports[a][2], supports[b][2]))
     return info
 
@@ -725,7 +746,7 @@ def reformulate(case, variant):
     return c
 
 
-CONFIRM = set((os.environ.get("C18_CONFIRM") or "element_balance printed_balance delta_limit max_frac_err water_balance minimal").split())
+CONFIRM = set((os.environ.get("C18_CONFIRM") or "element_balance printed_balance delta_limit max_frac_err water_balance range_majority").split())
 
 
 def check_case(case, ctx):
